@@ -147,14 +147,20 @@ def register_vs_mnemonic(F, tab):
 
     def wrapped(fn_path, *inner_preds):
         """some `attempt(..)` of the function whose argument contains a call satisfying each predicate"""
-        fn = F.fns.get(fn_path)
-        if not fn or not fn.get("thir"):
+        from dispatch import thir_reach
+        if fn_path not in F.fns:
             return False
-        for n in walk(fn["thir"]["body"]):
-            if n.get("k") == "call" and (callee_path(n) or "").endswith("::attempt"):
-                inner = [callee_path(y) or "" for a in n["args"] for y in walk(a) if y.get("k") == "call"]
-                if all(any(pred(c) for c in inner) for pred in inner_preds):
-                    return True
+        # the function and the private parser functions it is split into (and their closures)
+        fam = {q for q in thir_reach(F, [fn_path]) if q.startswith("asm_parser::")} | {fn_path}
+        for q in sorted(fam):
+            fn = F.fns.get(q)
+            if not fn or not fn.get("thir"):
+                continue
+            for n in walk(fn["thir"]["body"]):
+                if n.get("k") == "call" and (callee_path(n) or "").endswith("::attempt"):
+                    inner = [callee_path(y) or "" for a in n["args"] for y in walk(a) if y.get("k") == "call"]
+                    if all(any(pred(c) for c in inner) for pred in inner_preds):
+                        return True
         return False
     # either the whole register alternative is under `attempt`, or inside `register` the `attempt` covers the `r` together
     # with what tells a register from a mnemonic (the no-letter look-ahead or the digits): an `attempt` around the bare
@@ -173,6 +179,25 @@ def internal_entry(F):
     return c[0] if len(c) == 1 else None
 
 
+def _run_entry(F, ev, ins, st=None):
+    """run the assembler on a given list of parsed instructions: through its internal entry when it has one, else
+    through the public `assemble` with the parser answering that list (the instruction loop written inline)"""
+    entry = internal_entry(F)
+    if entry is not None:
+        return ev.run_fn(entry, [("array", tuple(ins))], st), True
+    pub = "assembler::assemble"
+    if pub not in F.fns or not F.fns[pub].get("thir"):
+        return None, False
+    saved = dict(ev.models)
+    ev.models = dict(ev.models)
+    ev.models["asm_parser::parse"] = lambda ev_, vals, n, s, path, gens: [(symex.ok(("array", tuple(ins))), s)]
+    try:
+        outs = ev.run_fn(pub, [("obj", "SRC", "&str")], st)
+    finally:
+        ev.models = saved
+    return outs, False
+
+
 def _contradictory(conds):
     flat = set()
     for c in conds:
@@ -189,13 +214,10 @@ def _contradictory(conds):
 def resolve(F, ev, name, shape=None, ops=None, st=None):
     """evaluate the assembler's own name resolution + encoding for one instruction `name <operands>`:
     -> list of dict(res='Ok'|'Err'|'panic'|'?', insns=[{field: term}], conds=[...]) over feasible paths, or None"""
-    entry = internal_entry(F)
-    if entry is None:
-        return None
     if ops is None:
         ops = tuple(operand(k, i) for i, k in enumerate(shape))
     ins = symex.struct("asm_parser::Instruction", "Instruction", (("name", ("lit", name)), ("operands", ("array", tuple(ops)))))
-    outs = ev.run_fn(entry, [("array", (ins,))], st)
+    outs, internal = _run_entry(F, ev, (ins,), st)
     if outs is None:
         return None
     res = []
@@ -215,8 +237,8 @@ def resolve(F, ev, name, shape=None, ops=None, st=None):
                 x = e[2][1]
                 if isinstance(x, tuple) and x and x[0] == "struct" and x[1].endswith("Insn"):
                     insns.append({k: y for k, y in x[3]})
-                else:
-                    insns.append({"?": x})
+                elif internal:
+                    insns.append({"?": x})      # (through the public entry the bytes are pushed too: only Insn values count)
         res.append({"res": kind, "insns": insns, "conds": list(st.conds), "unrec": list(st.unrec)})
     return res
 
@@ -224,11 +246,8 @@ def resolve(F, ev, name, shape=None, ops=None, st=None):
 def resolve_seq(F, ev, items):
     """the assembler's name resolution + encoding for a sequence of instructions [(name, operands)]:
     -> list of dict(res, insns) over feasible paths, or None"""
-    entry = internal_entry(F)
-    if entry is None:
-        return None
     ins = tuple(symex.struct("asm_parser::Instruction", "Instruction", (("name", ("lit", nm)), ("operands", ("array", tuple(ops))))) for nm, ops in items)
-    outs = ev.run_fn(entry, [("array", ins)])
+    outs, internal = _run_entry(F, ev, ins)
     if outs is None:
         return None
     res = []
@@ -242,7 +261,10 @@ def resolve_seq(F, ev, items):
         for e in st.effects:
             if e[0] == "call" and isinstance(e[1], str) and e[1].endswith("Vec<T, A>::push"):
                 x = e[2][1]
-                insns.append({k: y for k, y in x[3]} if isinstance(x, tuple) and x and x[0] == "struct" and x[1].endswith("Insn") else {"?": x})
+                if isinstance(x, tuple) and x and x[0] == "struct" and x[1].endswith("Insn"):
+                    insns.append({k: y for k, y in x[3]})
+                elif internal:
+                    insns.append({"?": x})
         res.append({"res": kind, "insns": insns, "conds": list(st.conds)})
     return res
 
